@@ -188,7 +188,11 @@ type Member struct {
 type Config struct {
 	Actors   []string
 	Members  []*Member
-	Interp   []string // interpretation clauses, in order
+	Interp   []string // interpretation clauses of the last section, in order
+	// InterpSplit members are declared in a first audience section, followed
+	// by an interpretation section Interp1; the other members and Interp follow.
+	InterpSplit int
+	Interp1     []string
 	VarTypes map[string]Typ
 	VarOrder []string
 }
@@ -391,29 +395,38 @@ func (g *Gen) Config() *Config {
 		c.Members = append(c.Members, m)
 	}
 	if g.WithInterp {
-		nc := g.R.Intn(5)
-		for i := 0; i < nc; i++ {
-			res := g.pick([]string{"disappointment", "satisfaction"})
-			if g.R.Intn(6) == 0 {
-				c.Interp = append(c.Interp, "ignore "+res)
-				for _, m := range c.Members {
-					if res == "disappointment" {
-						m.FoulBad = "ignore"
-					} else {
-						m.FoulGood = "ignore"
+		// Two interpretation sections: one after the first K members (its
+		// auditor-less shorthand only touches those), one at the end.
+		c.InterpSplit = 1 + g.R.Intn(len(c.Members))
+		gen := func(avail []*Member) []string {
+			var out []string
+			nc := g.R.Intn(4)
+			for i := 0; i < nc; i++ {
+				res := g.pick([]string{"disappointment", "satisfaction"})
+				if g.R.Intn(4) == 0 {
+					out = append(out, "ignore "+res)
+					for _, m := range avail {
+						if res == "disappointment" {
+							m.FoulBad = "ignore"
+						} else {
+							m.FoulGood = "ignore"
+						}
 					}
+					continue
 				}
-				continue
+				m := avail[g.R.Intn(len(avail))]
+				mode := g.pick([]string{"ignore", "foul upon", "require"})
+				out = append(out, mode+" "+m.Name+" "+res)
+				if res == "disappointment" {
+					m.FoulBad = mode
+				} else {
+					m.FoulGood = mode
+				}
 			}
-			m := c.Members[g.R.Intn(len(c.Members))]
-			mode := g.pick([]string{"ignore", "foul upon", "require"})
-			c.Interp = append(c.Interp, mode+" "+m.Name+" "+res)
-			if res == "disappointment" {
-				m.FoulBad = mode
-			} else {
-				m.FoulGood = mode
-			}
+			return out
 		}
+		c.Interp1 = gen(c.Members[:c.InterpSplit])
+		c.Interp = gen(c.Members)
 	}
 	return c
 }
@@ -428,13 +441,35 @@ func (c *Config) Text() string {
 	for _, a := range c.Actors {
 		b.WriteString("  " + a + " plays r\n")
 	}
-	b.WriteString("end\naudience\n")
-	for _, m := range c.Members {
+	b.WriteString("end\n")
+	first := c.Members
+	var rest []*Member
+	if c.InterpSplit > 0 && c.InterpSplit < len(c.Members) {
+		first, rest = c.Members[:c.InterpSplit], c.Members[c.InterpSplit:]
+	}
+	b.WriteString("audience\n")
+	for _, m := range first {
 		for _, cl := range m.ClauseOrdr {
 			b.WriteString("  " + cl + "\n")
 		}
 	}
 	b.WriteString("end\n")
+	if len(c.Interp1) > 0 {
+		b.WriteString("interpretation\n")
+		for _, cl := range c.Interp1 {
+			b.WriteString("  " + cl + "\n")
+		}
+		b.WriteString("end\n")
+	}
+	if len(rest) > 0 {
+		b.WriteString("audience\n")
+		for _, m := range rest {
+			for _, cl := range m.ClauseOrdr {
+				b.WriteString("  " + cl + "\n")
+			}
+		}
+		b.WriteString("end\n")
+	}
 	if len(c.Interp) > 0 {
 		b.WriteString("interpretation\n")
 		for _, cl := range c.Interp {
@@ -595,4 +630,71 @@ func (g *Gen) History(c *Config, maxLen int) []Event {
 	}
 	es = append(es, Event{Kind: "final", TsHalf: ts + 2})
 	return es
+}
+
+// CoqItems renders the verdict-relevant items of the configuration file in
+// file order, as terms of Model/Verdict.v.
+func (c *Config) CoqItems() string {
+	var items []string
+	clause := func(cl string) string {
+		f := strings.Fields(cl)
+		res := "RBad"
+		if f[len(f)-1] == "satisfaction" {
+			res = "RGood"
+		}
+		if len(f) == 2 {
+			return "IIgnoreAll " + res
+		}
+		mode := "FIgnore"
+		name := f[1]
+		switch f[0] {
+		case "foul":
+			mode = "FNonZero"
+			name = f[2]
+		case "require":
+			mode = "FZero"
+		}
+		return "ISet " + mode + " " + coqStr(name) + " " + res
+	}
+	split := c.InterpSplit
+	if split <= 0 || split > len(c.Members) {
+		split = len(c.Members)
+	}
+	for _, m := range c.Members[:split] {
+		items = append(items, "IMember "+coqStr(m.Name))
+	}
+	for _, cl := range c.Interp1 {
+		items = append(items, clause(cl))
+	}
+	for _, m := range c.Members[split:] {
+		items = append(items, "IMember "+coqStr(m.Name))
+	}
+	for _, cl := range c.Interp {
+		items = append(items, clause(cl))
+	}
+	return "[" + strings.Join(items, "; ") + "]"
+}
+
+// FoulOf returns the generator's own computation of the final (bad, good)
+// foul conditions of a member: defaults overridden by the last clause.
+func (m *Member) FoulOf() (string, string) {
+	b, gd := "FNonZero", "FIgnore"
+	conv := func(s string) string {
+		switch s {
+		case "ignore":
+			return "FIgnore"
+		case "foul upon":
+			return "FNonZero"
+		case "require":
+			return "FZero"
+		}
+		return ""
+	}
+	if x := conv(m.FoulBad); x != "" {
+		b = x
+	}
+	if x := conv(m.FoulGood); x != "" {
+		gd = x
+	}
+	return b, gd
 }
